@@ -1,4 +1,5 @@
 import re
+import math
 from fractions import Fraction as frac
 
 VAR_REGEX = re.compile(r"[a-zA-Zμ€$£¥][_a-zA-Z0-9μ€$£¥]*")
@@ -217,7 +218,14 @@ def read_num_token(i, s):
         value = int(raw_value)
     else:
         value = float(raw_value)
-    if m.group(4):
+    if m.group(4) and isinstance(value, float):
+        # A decimal mantissa with an exponent: let float() read the whole
+        # literal (correctly rounded). mantissa * float(10**-k) loses the
+        # value for small magnitudes: 4.94066e-324 read back as 0.
+        value = float(m.group(0))
+        if math.isinf(value):
+            raise BadNumberError(i)
+    elif m.group(4):
         exponent = int(m.group(4)[1:])
         try:
             if exponent < 0:
